@@ -162,7 +162,7 @@ def case_lattice(**p):
       parts.append(sym.scalar(t2.sym_run(K)[0]))
     case.solve('regularizer-linear-in-amounts', z3.Or(sym.NE(out, sym.s_add(parts[0], parts[1])),
                                                       sym.NE(parts[2], sym.s_add(sym.s_mul(parts[0], 2), sym.s_mul(parts[1], 4)))),
-               witness=dict(k=K), timeout=tmo, sig=dict(query='linear', kind=p['kind']), replay=None, required=False)
+               witness=dict(k=K), timeout=tmo, sig=dict(query='linear', kind=p['kind']), replay=dict(fn='lattice-linear', params=p), required=False)
   return case
 
 
@@ -208,7 +208,7 @@ def case_pwl(**p):
   o1 = sym.scalar(Traced(lambda k: rg1(k) + tf.zeros([], tf.float32), [tf.TensorSpec([rows, units], tf.float32)]).sym_run(K)[0])
   o2 = sym.scalar(Traced(lambda k: rg2(k) + tf.zeros([], tf.float32), [tf.TensorSpec([rows, units], tf.float32)]).sym_run(K)[0])
   case.solve('regularizer-additive-in-l1-l2', sym.NE(out, sym.s_add(o1, o2)), witness=dict(k=K), timeout=tmo,
-             sig=dict(query='linear', kind='pwl-' + p['kind']), replay=None, required=False)
+             sig=dict(query='linear', kind='pwl-' + p['kind']), replay=dict(fn='pwl-linear', params=p), required=False)
   return case
 
 
@@ -216,6 +216,13 @@ def replay(r):
   import tensorflow as tf
   p = r['replay']['params']
   K = core.witness_np(r['witness']['k'])
+  if r['replay']['fn'] in ('lattice-linear', 'pwl-linear'):
+    mk = _lat_reg if r['replay']['fn'] == 'lattice-linear' else _pwl_reg
+    z1 = [0.0] * len(p['l1']) if isinstance(p['l1'], list) else 0.0
+    z2 = [0.0] * len(p['l2']) if isinstance(p['l2'], list) else 0.0
+    Kt = tf.constant(K, tf.float32)
+    whole, a_, b_ = float(mk(p)(Kt)), float(mk(p, p['l1'], z2)(Kt)), float(mk(p, z1, p['l2'])(Kt))
+    return dict(reproduced=bool(abs(whole - (a_ + b_)) > 1e-4 * max(1.0, abs(whole))), detail=dict(both=whole, l1_only=a_, l2_only=b_))
   if r['replay']['fn'] == 'lattice':
     out = float(_lat_reg(p)(tf.constant(K, tf.float32)))
     ref = ref_laplacian(sym.obj(K), p['sizes'], p['l1'], p['l2']) if p['kind'] == 'laplacian' else ref_torsion(sym.obj(K), p['sizes'], p['l1'], p['l2'], _pair_weights(p))
